@@ -27,6 +27,7 @@ type c14Pres struct {
 	acked      bool
 	wave       int
 	gaveUp     bool // returned the ended context's error: neither let through nor dropped; presented again
+	failing    bool // the wrapped handler / publisher fails for this message if it gets there
 }
 
 func c14Payload(t *simrt.Tape, keyIdx int, variant int) string {
@@ -131,8 +132,19 @@ func c14Body(r *Run) {
 	var ev int64
 	handled := map[*message.Message]bool{}
 	inner := NewScriptedPublisher(r, "inner")
+	inner.Decide = func(c *PubCall) PubFault {
+		if len(c.Msgs) > 0 && c.Msgs[0].Metadata.Get("fail") == "1" {
+			return PubErr
+		}
+		return PubOK
+	}
+	errHandler := errors.New("scripted handler error")
 	handler := d.Middleware(func(m *message.Message) ([]*message.Message, error) {
 		handled[m] = true
+		if m.Metadata.Get("fail") == "1" {
+			r.Fault("handler-error")
+			return nil, errHandler
+		}
 		return []*message.Message{message.NewMessage(m.UUID+">o", nil)}, nil
 	})
 	var decorated message.Publisher
@@ -144,9 +156,18 @@ func c14Body(r *Run) {
 		}
 	}
 	handler2, decorated2 := handler, decorated
-	if defaultRepo {
+	// the same Deduplicator installed in two places is ONE deduplication domain, also after one of the two decorated
+	// publishers has been closed (a router closes a handler's publisher when the handler stops)
+	twoWraps := defaultRepo || t.Chance(1, 3)
+	closeSecond := twoWraps && useDecorator && t.Chance(1, 2)
+	secondClosed := false
+	if twoWraps {
 		handler2 = d.Middleware(func(m *message.Message) ([]*message.Message, error) {
 			handled[m] = true
+			if m.Metadata.Get("fail") == "1" {
+				r.Fault("handler-error")
+				return nil, errHandler
+			}
 			return []*message.Message{message.NewMessage(m.UUID+">o", nil)}, nil
 		})
 		if useDecorator {
@@ -160,6 +181,7 @@ func c14Body(r *Run) {
 		g, wave, keyIdx, variant int
 		cancelledCtx             bool
 		wrap                     int // which of the two places the Deduplicator is installed in
+		failing                  bool
 	}
 	var present func(j job)
 	present = func(j job) {
@@ -173,13 +195,16 @@ func c14Body(r *Run) {
 			ccancel()
 			m.SetContext(cctx)
 		}
-		p := &c14Pres{key: fmt.Sprintf("k%d", j.keyIdx), payload: payload, wave: j.wave}
+		if j.failing {
+			m.Metadata.Set("fail", "1")
+		}
+		p := &c14Pres{key: fmt.Sprintf("k%d", j.keyIdx), payload: payload, wave: j.wave, failing: j.failing}
 		pres = append(pres, p)
 		ev++
 		p.invEv, p.inv = ev, r.Sim.Now()
 		if useDecorator {
 			pub := decorated
-			if j.wrap == 1 {
+			if j.wrap == 1 && !secondClosed {
 				pub = decorated2
 			}
 			p.err = pub.Publish("topic", m)
@@ -215,7 +240,7 @@ func c14Body(r *Run) {
 	plan := make([][]job, waves)
 	for w := 0; w < waves; w++ {
 		for g := 0; g < nG; g++ {
-			plan[w] = append(plan[w], job{g: g, wave: w, keyIdx: t.Int(nKeys), variant: t.Int(3), cancelledCtx: t.Chance(1, 6), wrap: t.Int(2)})
+			plan[w] = append(plan[w], job{g: g, wave: w, keyIdx: t.Int(nKeys), variant: t.Int(3), cancelledCtx: t.Chance(1, 6), wrap: t.Int(2), failing: t.Chance(1, 8)})
 		}
 	}
 	stallFree := r.Params["stalled"] == 0
@@ -232,6 +257,13 @@ func c14Body(r *Run) {
 		}
 		// wait for the wave, then let the clock pass
 		wg.Wait()
+		if closeSecond && !secondClosed {
+			secondClosed = true
+			r.Fault("decorated-publisher-closed")
+			if err := decorated2.Close(); err != nil {
+				r.Fail("C14.R0", "closing a decorated publisher failed", "%v", err)
+			}
+		}
 		time.Sleep(time.Duration(gaps[w]) * window / 2)
 	}
 }
@@ -246,7 +278,8 @@ func c14Check(r *Run, pres []*c14Pres, window time.Duration, useDecorator bool, 
 		if p.gaveUp {
 			continue
 		}
-		if p.err != nil {
+		if p.err != nil && !(p.failing && p.accepted) {
+			// (the error of a wrapped handler / publisher that was reached passes through; the message counts as let through)
 			r.Fail("C14.R0", "the deduplicator returned an error", "%v", p.err)
 			return
 		}
@@ -259,7 +292,7 @@ func c14Check(r *Run, pres []*c14Pres, window time.Duration, useDecorator bool, 
 			if !useDecorator && p.outs != 0 {
 				r.Fail("C14.R3", "a duplicate produced outputs", "%s", p.key)
 			}
-		} else if !useDecorator && p.outs != 1 {
+		} else if !useDecorator && p.outs != 1 && p.err == nil {
 			r.Fail("C14.R3", "an accepted message did not get the handler's result", "%s outs=%d", p.key, p.outs)
 		}
 	}
